@@ -901,8 +901,28 @@ impl<'a, 'b> Gen<'a, 'b> {
                 _ => None,
             })
             .collect();
-        let k = self.t.weighted(&[10, if self.cfg.funcs { 4 } else { 0 }, if self.cfg.modules { 2 } else { 0 }, 1, 2, if self.cfg.funcs { 2 } else { 0 }, if tuples_in_scope.is_empty() { 0 } else { 3 }, 1]);
+        let k = self.t.weighted(&[10, if self.cfg.funcs { 4 } else { 0 }, if self.cfg.modules { 2 } else { 0 }, 1, 2, if self.cfg.funcs { 2 } else { 0 }, if tuples_in_scope.is_empty() { 0 } else { 3 }, 1, 1]);
         match k {
+            8 => {
+                // a list grown from the empty list, bound, then indexed by a literal
+                self.mark("list-grown-from-empty");
+                let items = vec![E::Int(self.t.range(0, 9)), E::Int(self.t.range(0, 9))];
+                let grown = match self.t.choice(3) {
+                    0 => {
+                        let (a, x) = (self.fresh("p"), self.fresh("p"));
+                        let body = E::Bin(Op::Add, Box::new(E::Sym(a.clone())), Box::new(E::List(vec![E::Bin(Op::Mul, Box::new(E::Sym(x.clone())), Box::new(E::Int(2)))])));
+                        E::Reduce(Box::new(E::Func { params: vec![a, x], body: Box::new(body) }), Box::new(E::List(vec![])), Box::new(E::List(items)))
+                    }
+                    1 => E::Bin(Op::Add, Box::new(E::List(vec![])), Box::new(E::List(items))),
+                    _ => E::Bin(Op::Add, Box::new(E::List(items)), Box::new(E::List(vec![]))),
+                };
+                let name = self.fresh("v");
+                self.scope.push((name.clone(), Ty::List(Box::new(Ty::Int))));
+                let r = self.fresh("v");
+                self.scope.push((r.clone(), Ty::Int));
+                self.pending.push(Stmt::Let(r, E::Field(Box::new(E::Sym(name.clone())), Sel::Index(self.t.choice(2) as i64))));
+                Stmt::Let(name, grown)
+            }
             7 => {
                 // lists of different lengths and element types joined (no binding: the result has
                 // no type of this generator's)
